@@ -35,6 +35,16 @@ mod context;
 mod store;
 mod dependency;
 
+/// Verification hooks: re-exports of crate-internal items for external proof harnesses. Not part of the API; only
+/// compiled with `--cfg gohla_pie_verif`.
+#[cfg(gohla_pie_verif)]
+#[doc(hidden)]
+pub mod verif_hooks {
+  pub use crate::trait_object::base::{AsAny, EqObj, HashObj};
+  pub use crate::trait_object::collection::TypeToAnyMap;
+  pub use crate::trait_object::task::{OutputCheckerObj, TaskObj};
+}
+
 /// Trait alias for types that are used as values: types that can be cloned, debug formatted, and contain no
 /// non-`'static` references. We use this as an alias for trait bounds and super-traits.
 pub trait Value: Clone + Debug + 'static {}
